@@ -36,7 +36,7 @@ func syntheticCommon(degBits uint64, challenges, routed, qdf, nGate uint64) type
 	c.GateIds = []string{"NoopGate"}
 	c.SelectorsInfo = *gates.NewSelectorsInfo([]uint64{0}, []uint64{0}, []uint64{1})
 	for i := uint64(0); i < routed; i++ {
-		c.KIs = append(c.KIs, 7*i*i+3*i+1)
+		c.KIs = append(c.KIs, 7*i*i+3*i+5) // arbitrary distinct shifts, the first one deliberately not 1
 	}
 	return c
 }
